@@ -59,6 +59,8 @@ VEC = {
     "oa2tr": lambda o, a: b.oa2tr(o, a), "trexp": lambda v: b.trexp(v), "trexp2": lambda v: b.trexp2(v),
     "skew": lambda v: b.skew(v), "skewa": lambda v: b.skewa(v), "delta2tr": lambda v: b.delta2tr(v),
     "trotx(t=)": lambda v: b.trotx(0.3, t=v), "trot2(t=)": lambda v: b.trot2(0.3, t=v),
+    "troty(t=)": lambda v: b.troty(0.3, t=v), "trotz(t=)": lambda v: b.trotz(0.3, t=v),
+    "SE3.Rx(t=)": lambda v: SE3.Rx(0.3, t=v), "SE3.Ry(t=)": lambda v: SE3.Ry(0.3, t=v), "SE3.Rz(t=)": lambda v: SE3.Rz(0.3, t=v),
     "rodrigues": lambda v: b.rodrigues(v), "rt2tr(t)": lambda v: b.rt2tr(b.rotx(0.3), v),
     "pure": lambda v: b.pure(v), "qnorm": lambda v: b.qnorm(v), "unit": lambda v: b.unit(v),
     "isunit": lambda v: b.isunit(v), "conj": lambda v: b.conj(v), "qqmul": lambda p, q: b.qqmul(p, q),
@@ -184,6 +186,12 @@ UNIT_OUT = {
     "SO3.angvec": lambda u, R, T, H, o: SO3(R).angvec(unit=u)[0], "SE3.rpy": lambda u, R, T, H, o: SE3(T).rpy(unit=u, order=o),
     "SE3.eul": lambda u, R, T, H, o: SE3(T).eul(unit=u), "SE3.angvec": lambda u, R, T, H, o: SE3(T).angvec(unit=u)[0],
     "SO2.theta": lambda u, R, T, H, o: SO2(H[:2, :2]).theta(unit=u), "SE2.theta": lambda u, R, T, H, o: SE2(H).theta(unit=u),
+    "SO2.theta(multi)": lambda u, R, T, H, o: np.asarray(SO2([SO2(H[:2, :2]), SO2(H[:2, :2]).inv(), SO2(0.25)]).theta(unit=u), dtype=float),
+    "SE2.theta(multi)": lambda u, R, T, H, o: np.asarray(SE2([SE2(H), SE2(H).inv()]).theta(unit=u), dtype=float),
+    "SO3.rpy(multi)": lambda u, R, T, H, o: np.asarray(SO3([SO3(R), SO3(R).inv()]).rpy(unit=u, order=o), dtype=float),
+    "SO3.eul(multi)": lambda u, R, T, H, o: np.asarray(SO3([SO3(R), SO3(R).inv()]).eul(unit=u), dtype=float),
+    "SE3.rpy(multi)": lambda u, R, T, H, o: np.asarray(SE3([SE3(T), SE3(T).inv()]).rpy(unit=u, order=o), dtype=float),
+    "SE3.eul(multi)": lambda u, R, T, H, o: np.asarray(SE3([SE3(T), SE3(T).inv()]).eul(unit=u), dtype=float),
     "SE2.xyt": lambda u, R, T, H, o: SE2(H).xyt(unit=u)[2] if _has_unit(SE2.xyt) else None,
     "UnitQuaternion.rpy": lambda u, R, T, H, o: UnitQuaternion(SO3(R)).rpy(unit=u, order=o),
     "UnitQuaternion.eul": lambda u, R, T, H, o: UnitQuaternion(SO3(R)).eul(unit=u),
